@@ -428,6 +428,26 @@ func c15nRunCase(t *testing.T, run *vk.Run, cs c15nCase, fam *c15nStats) bool {
 				h.add(op)
 				run.Count("allocate_failed", 1)
 				run.Count("exhausted_"+cs.Backend, 1)
+				// a node whose start-up failed holds nothing: it must not report an id
+				// that belongs to somebody else, and shutting it down (Release) must not
+				// free anybody's slot. Its Release is no Release of any id, so it is not
+				// part of the history; later allocations reveal a freed slot.
+				if g := a.GetNodeID(); g != "" {
+					run.Count("failed_allocator_reports_id", 1)
+					if seeded[g] {
+						run.Violation("C15:failed-allocator-reports-foreign-node-id|"+sigTail, map[string]any{"case": cs, "GetNodeID": g, "allocate_error": err.Error(),
+							"note": "AllocateNodeID returned an error; the reported id is held by an earlier allocator that never released it"})
+					}
+				}
+				func() {
+					defer func() {
+						if p := recover(); p != nil {
+							run.Violation("C15:panic|op=release-after-failed-allocate|"+sigTail, map[string]any{"case": cs, "panic": fmt.Sprint(p)})
+						}
+					}()
+					_ = a.Release()
+					run.Count("release_after_failed_allocate", 1)
+				}()
 				continue
 			}
 			op.OK, op.ID = true, id
@@ -495,7 +515,7 @@ func TestVerifC15NodeAlloc(t *testing.T) {
 	vk.Quiet()
 	run := vk.Start(t, "C15", "node-alloc")
 	defer run.Finish()
-	run.Rule("case = (backend in memory/redis(miniredis)/hybrid+shared redis/hybrid local/no-SetNX double (sequential), N in {2,4,8} concurrent NodeIDAllocators each on its own storage client, pre-occupied slots none/prefix/all-but-one/all 1000 marked through the allocator's own acquisition path, hold/release pattern); random yields at every storage operation, every second case with storage faults injected before 0.2-2.5% of the slot-key operations; distinct = (backend,N,preseed,faults on/off)")
+	run.Rule("case = (backend in memory/redis(miniredis)/hybrid+shared redis/hybrid local/no-SetNX double (sequential), N in {2,4,8} concurrent NodeIDAllocators each on its own storage client, pre-occupied slots none/prefix/all-but-one/all 1000 marked through the allocator's own acquisition path, hold/release pattern; an allocator whose allocation failed is asked for GetNodeID and Released, then allocation continues); random yields at every storage operation, every second case with storage faults injected before 0.2-2.5% of the slot-key operations; distinct = (backend,N,preseed,faults on/off)")
 	r := run.Rand("cases")
 	reps := run.Pick(4, 30)
 	pre := []string{"none", "prefix", "all-but-one", "all"}
@@ -521,7 +541,7 @@ func TestVerifC15NodeAlloc(t *testing.T) {
 					cs.Hole = NodeIDMin + r.Intn(NodeIDMax-NodeIDMin+1)
 					cs.Rounds = 6
 				case "all":
-					cs.Rounds = 2
+					cs.Rounds = 3
 				}
 				if be == "redis" || be == "hybrid-shared" {
 					// every probe of an occupied slot is a network round trip
@@ -556,6 +576,7 @@ func TestVerifC15NodeAlloc(t *testing.T) {
 	run.Floor("allocate_ok", 50)
 	run.Floor("release_ok", 50)
 	run.Floor("faults_injected", 200)
+	run.Floor("release_after_failed_allocate", 20)
 }
 
 // ---------------------------------------------------------------- lease over time
